@@ -158,6 +158,14 @@ DotDiff(in, d) ==
                \* sub-packages is an interior node of the package tree. The statement speaks of types
                \* only, so for merged graphs a drawn node must be an included package, drawn once;
                \* which of the included packages are drawn is not judged.
+               \* What IS judged: an included package must be visible at all - as a drawn node of its
+               \* name or as a cluster on the path of a drawn node (a package that is neither is not
+               \* "shown"; the unnamed package has no name to be shown under).
+               {Item("dot-package-missing", q) :
+                  q \in {x \in qn : x # "" /\ Included(in, x) /\
+                           ~\E i \in DOMAIN d.nodes :
+                               LET s == Shown(d.nodes[i])
+                               IN  s = x \/ (Len(s) > Len(x) /\ SubSeq(s, 1, Len(x) + 1) = x \o ".")}} \cup
                {Item("dot-node-not-an-included-package", Shown(d.nodes[i])) :
                   i \in {j \in DOMAIN d.nodes : ~(known[j] /\ Included(in, nameOf[j]))}} \cup
                {Item("dot-package-repeated", Shown(d.nodes[i])) :
